@@ -42,6 +42,11 @@ def make_case(rng, tier, damage, max_damage=4):
     pl = gen.pick_pl(rng, B)
     version = rng.choice([1, 2, 3])
     single = rng.random() < 0.2
+    want_source = rng.choice(SOURCES)
+    if want_source == "ref-nolen":          # BEP 52 single file without info.length
+        version, single = 2, True
+    elif want_source == "ref-notrail":      # hybrid without trailing padding entry
+        version, single = 3, False
     if single:
         size, _ = gen.pick_size(rng, B, pl, allow_empty=False, big=(tier != "quick"))
         files = [(rng.choice(gen.NAMES), gen.pick_blob(rng, size))]
@@ -66,7 +71,7 @@ def make_case(rng, tier, damage, max_damage=4):
             twin_rel = None
     else:
         twin_rel = None
-    source = rng.choice(SOURCES)
+    source = want_source
     if SCALED[0] and source == "own":
         source = "ref"
     if source == "ref-notrail" and (version != 3 or single):
